@@ -174,12 +174,16 @@ def visibleVid (m : Mem) (b : Bytes) (v : Ver) : Option Nat :=
 /-- `GetObject` without a range -/
 def get (m : Mem) (b : Bytes) (k : Key) : Res Ver := current m b k
 
+/-- `MergeMetadata(db, bucket, key, meta)`: errors of the lookup are ignored -/
+def mergedMeta (m : Mem) (b : Bytes) (k : Key) (md : Meta) : Meta :=
+  match current m b k with
+  | .ok old => mergeMeta md old.md
+  | _ => md
+
 /-- `PutObject` once the body has been read: merge metadata, commit -/
 def put (md5 : Bytes → Bytes) (m : Mem) (b : Bytes) (k : Key) (md : Meta) (body : Bytes) :
     Mem × Res (Option Nat) :=
-  let md' := match current m b k with
-    | .ok old => mergeMeta md old.md
-    | _ => md
+  let md' := mergedMeta m b k md
   match SMap.find m.buckets b with
   | none => (m, .err .NoSuchBucket)
   | some bk =>
